@@ -35,7 +35,8 @@ Theorem C10_no_other_state :
    ConcGen.codec_pkg_var_writers = [] /\ ConcGen.reflect_pkg_var_writers = [] /\ ConcGen.schema_pkg_var_writers = []) /\
   (only_calls ConcGen.reflector_methods = true /\ ConcGen.reflector_package_vars = []) /\
   (only_calls ConcGen.codec_methods = true /\ ConcGen.codec_package_vars = ["Global"%string]) /\
-  ConcGen.codec_entry_points = expected_codec_entry_points.
+  ConcGen.codec_entry_points = expected_codec_entry_points /\
+  ConcGen.schema_writers = expected_schema_writers.
 Proof. exact no_other_state. Qed.
 Print Assumptions C10_no_other_state.
 
